@@ -24,14 +24,14 @@ COMMITS = [
     # (hash column, author, timestamp, key as delta shows it)
     ("0123456789abcdef", "A U Thor", "2020-01-01 00:00:00 +0000"),
     ("^89abcde", "漢字漢字 名前漢字漢字", "2021-02-03 04:05:06 +0100"),
-    ("fedcba98 old/name.rs", "B", "2019-12-31 23:59:59 -0800"),
+    ("fedcba98 old/name.rs", "B", "2019-12-31 23:59:59 -0330"),
     ("7777777777", "Zoë Q", "2022-06-07 08:09:10 +0530"),
 ]
 # the renamed-file column as git prints it: padded to the longest path, paths may contain blanks
 COMMITS_PADDED = [
     ("0123456789abcdef src/short.rs       ", "A U Thor", "2020-01-01 00:00:00 +0000"),
     ("^89abcde my dir/long file name.rs", "漢字漢字 名前漢字漢字", "2021-02-03 04:05:06 +0100"),
-    ("fedcba98 old/name.rs             ", "B", "2019-12-31 23:59:59 -0800"),
+    ("fedcba98 old/name.rs             ", "B", "2019-12-31 23:59:59 -0330"),
 ]
 CODES = [" code x", "\ttab", "", " é漢 y"]
 NUMBERS = [7, 123]
